@@ -308,8 +308,535 @@ class C03Monitor(Monitor):
                'lost_wakeup', holder_kind=f.kind[holder])
 
 
+# ===========================================================================
+# C06 cycle times across interruptions
+# ===========================================================================
+class Integrator(Monitor):
+    """Integrates, per processor, down time / up time / busy time from the
+    operational flag and the input slot sampled after every dispatch."""
+
+    def start(self, f):
+        f.down_total = {n: 0 for n in f.holders}
+        f.up_total = {n: 0 for n in f.procs}
+        f.busy_total = {n: 0 for n in f.procs}
+        f.busy = {n: False for n in f.procs}
+        self.last = 0
+
+    def after_step(self, f, e):
+        now = f.env.now
+        dt = now - self.last
+        self.last = now
+        if dt:
+            for n in f.procs:
+                if f.down_before_step.get(n):
+                    f.down_total[n] += dt
+                else:
+                    f.up_total[n] += dt
+                    if f.busy[n]:
+                        f.busy_total[n] += dt
+        for n in f.procs:
+            f.busy[n] = f.dev[n]._part is not None
+
+    def after_simulate(self, f):
+        now = f.env.now
+        dt = now - self.last
+        self.last = now
+        if dt:
+            for n in f.procs:
+                if f.down.get(n):
+                    f.down_total[n] += dt
+                else:
+                    f.up_total[n] += dt
+                    if f.busy[n]:
+                        f.busy_total[n] += dt
+
+
+class C06Monitor(Monitor):
+    def start(self, f):
+        self.cur = {}
+        self.recv_seen = 0
+        self.fin_seen = 0
+        self.timed = [n for n in f.holders if f.kind[n] in ('handler', 'proc', 'sink')]
+        self.src = {}
+        for n in f.sources:
+            self.src[n] = {'t0': 0, 'eff': max(0, f.dspec[n]['ct']), 'gen': 0, 'left': 0}
+        self.sink_prev = {}
+
+    def after_step(self, f, e):
+        now = f.env.now
+        # ---- new acceptances
+        while self.recv_seen < len(f.recv_log):
+            n, item, t, eff = f.recv_log[self.recv_seen][:4]
+            self.recv_seen += 1
+            if f.kind[n] not in ('handler', 'proc', 'sink'):
+                continue
+            c = self.cur.get(n)
+            if c is not None and f.kind[n] == 'sink' and c['eff'] == 0 and c['t'] == t \
+                    and f.dev[n]._part is not c['item']:
+                c = None    # a zero-cycle sink finished the previous part within this same dispatch
+            if c is not None:
+                f.fail('C06.c', f'{n} accepted {item.name} at {t} while {c["item"].name} is still in process',
+                       'two_in_process')
+            self.cur[n] = {'item': item, 't': t, 'eff': eff, 'down0': f.down_total[n], 'fin': 0}
+            if f.kind[n] == 'sink':
+                p = self.sink_prev.get(n)
+                if p is not None and t - p[0] < p[1]:
+                    f.fail('C06.e', f'sink {n} accepted a part at {t}, only {t - p[0]} after the previous one '
+                           f'(cycle time {p[1]})', 'sink_early')
+                self.sink_prev[n] = (t, eff)
+                self.ev(f, 'C06.e')
+        # ---- finish callbacks of processors
+        while self.fin_seen < len(f.finish_log):
+            n, item, t = f.finish_log[self.fin_seen]
+            self.fin_seen += 1
+            c = self.cur.get(n)
+            if c is None or c['item'] is not item:
+                f.fail('C06.b', f'{n} finished {item.name} at {t} which is not the part in process', 'stale_finish')
+            c['fin'] += 1
+            if c['fin'] > 1:
+                f.fail('C06.b', f'{n} finished {item.name} twice', 'twice')
+        # ---- end of cycles
+        for n in self.timed:
+            c = self.cur.get(n)
+            if c is None:
+                continue
+            o = f.dev[n]
+            if o._part is c['item']:
+                continue
+            finished = (o._output is c['item']) or f.kind[n] == 'sink' or c['fin'] > 0
+            if finished:
+                worked = (now - c['t']) - (f.down_total[n] - c['down0'])
+                self.ev(f, 'C06.a')
+                if worked != c['eff']:
+                    kind = 'early' if worked < c['eff'] else 'late'
+                    f.fail('C06.a', f'{n} released {c["item"].name} after {worked} of operational time '
+                           f'(accepted {c["t"]}, now {now}, down {f.down_total[n] - c["down0"]}); '
+                           f'cycle time in effect was {c["eff"]}', kind)
+                if f.down_total[n] - c['down0'] > 0:
+                    f.bump(f.stats['reach'], 'cycle_spanned_downtime')
+            else:
+                f.bump(f.stats['reach'], 'cycle_ended_by_failure')
+            self.cur[n] = None
+        # ---- sources
+        self.check_sources(f)
+
+    def before_step(self, f):
+        if f.step_no == 1:
+            # parts generated during initialisation (zero cycle time)
+            self.check_sources(f)
+
+    def check_sources(self, f):
+        now = f.env.now
+        for n in f.sources:
+            o, st = f.dev[n], self.src[n]
+            # a part that left in this step starts a new cycle first ...
+            if o.produced_parts > st['left']:
+                if o.produced_parts != st['left'] + 1:
+                    f.fail('C06.d', f'source {n} supplied {o.produced_parts - st["left"]} parts in one step', 'multi')
+                st['left'] = o.produced_parts
+                eff = max(0, o.cycle_time + f.pending_offset[n])
+                f.pending_offset[n] = 0
+                st['t0'], st['eff'] = now, eff
+            # ... then at most one part is generated
+            gen = o._part_generator._generated_part_counter
+            if gen > st['gen']:
+                if gen != st['gen'] + 1:
+                    f.fail('C06.d', f'source {n} generated {gen - st["gen"]} parts in one step', 'multi')
+                st['gen'] = gen
+                self.ev(f, 'C06.d')
+                if now - st['t0'] != st['eff']:
+                    f.fail('C06.d', f'source {n} produced part #{gen} at {now}, {now - st["t0"]} after its cycle '
+                           f'started at {st["t0"]}; cycle time in effect was {st["eff"]}', 'source_cycle')
+
+    def quiescent(self, f):
+        now = f.env.now
+        for n in self.timed:
+            c = self.cur.get(n)
+            if c is None or not f.dev[n].is_operational():
+                continue
+            if f.dev[n]._part is not c['item']:
+                continue
+            worked = (now - c['t']) - (f.down_total[n] - c['down0'])
+            if worked >= c['eff']:
+                f.fail('C06.a', f'{n} still holds {c["item"].name} in process at {now} after {worked} of '
+                       f'operational time; cycle time in effect was {c["eff"]}', 'late')
+
+
+# ===========================================================================
+# C13 shutdown / failure / restore / accounting
+# ===========================================================================
+class C13Monitor(Monitor):
+    def start(self, f):
+        self.slots_before = {}
+        self.shut_seen = 0
+        self.rest_seen = 0
+        self.df_seen = {n: 0 for n in f.procs}
+        self.wo_only = set()
+        touched = {o.get('dev') for o in f.spec.get('ops', []) if o['op'] in ('fail', 'shutdown', 'restore')}
+        self.wo_only = {n for n in f.procs if n not in touched}
+        self.fail_type = f.lib.EventType.FAIL
+
+    def before_step(self, f):
+        self.slots_before = {n: (f.dev[n]._part, f.dev[n]._output) for n in f.procs}
+
+    def after_step(self, f, e):
+        now = f.env.now
+        env = f.env
+        new_shut = f.shutdown_log[self.shut_seen:]
+        new_rest = f.restore_log[self.rest_seen:]
+        self.shut_seen = len(f.shutdown_log)
+        self.rest_seen = len(f.restore_log)
+        failing = None
+        if e is not None and e.event_type == self.fail_type and not e.cancelled:
+            for n in f.procs:
+                if f.dev[n].id == e.asset_id:
+                    failing = n
+        for n in f.procs:
+            o = f.dev[n]
+            was_down = f.down_before_step.get(n, False)
+            is_down = not o.is_operational()
+            pb, ob = self.slots_before[n]
+            shut = [x for x in new_shut if x[0] == n]
+            rest = [x for x in new_rest if x[0] == n]
+            # (a) accounting
+            if o.uptime != f.up_total[n]:
+                f.fail('C13.a', f'{n}.uptime is {o.uptime}, it has been operational for {f.up_total[n]}', 'uptime')
+            if o.utilization_time != f.busy_total[n]:
+                f.fail('C13.a', f'{n}.utilization_time is {o.utilization_time}, it has been processing for '
+                       f'{f.busy_total[n]}', 'utilization')
+            # (b) no movement while down
+            if was_down and is_down and failing != n:
+                if o._part is not pb or o._output is not ob:
+                    f.fail('C13.b', f'{n} is shut down but its slots changed: part {getattr(pb, "name", None)}->'
+                           f'{getattr(o._part, "name", None)}, output {getattr(ob, "name", None)}->'
+                           f'{getattr(o._output, "name", None)}', 'moved_while_down')
+            if was_down and o._part is not pb and pb is None:
+                f.fail('C13.b', f'{n} accepted {o._part.name} while shut down', 'accepted_while_down')
+            # (c) failure
+            if failing == n:
+                f.bump(f.stats['reach'], 'failure_with_part' if pb is not None else 'failure_idle')
+                if was_down:
+                    f.bump(f.stats['reach'], 'failure_while_down')
+                if ob is not None:
+                    f.bump(f.stats['reach'], 'failure_with_finished_part')
+                if not is_down:
+                    f.fail('C13.c', f'{n} is operational right after its failure event', 'not_down')
+                if o._part is not None:
+                    f.fail('C13.c', f'{n} still holds {o._part.name} in process after failing', 'kept_part')
+                if o._output is not ob:
+                    f.fail('C13.c', f'failure of {n} changed its finished part', 'output_changed')
+                recs = env.simulation_data.get('device_failure', {}).get(n, [])
+                newr = recs[self.df_seen[n]:]
+                want = (now, pb.id if pb is not None else None)
+                if list(newr) != [want]:
+                    f.fail('C13.c', f'failure of {n} at {now} logged {newr}, expected [{want}]', 'failure_log')
+                exp = [(n, 0, True, pb), (n, 1, True, pb)]
+                got = [(x[0], x[1], x[2], x[3]) for x in shut]
+                if pb is not None or not was_down:
+                    if got != exp:
+                        f.fail('C13.c' if [g[1] for g in got] == [0, 1] or len(got) != 2 else 'C13.e',
+                               f'failure of {n} with part {getattr(pb, "name", None)} in process: shutdown '
+                               f'callbacks received {[(g[1], g[2], getattr(g[3], "name", None)) for g in got]}',
+                               'failure_callbacks', was_down=was_down)
+                elif got not in ([], exp):
+                    f.fail('C13.c', f'failure of idle, already shut down {n}: shutdown callbacks received {got}',
+                           'failure_callbacks_idle')
+            else:
+                # (d)/(e) transitions and callbacks
+                if not was_down and is_down:
+                    got = [(x[1], x[2], x[3]) for x in shut]
+                    if got != [(0, False, None), (1, False, None)]:
+                        f.fail('C13.e', f'shutdown of {n}: callbacks received {got}', 'shutdown_callbacks')
+                    f.bump(f.stats['reach'], 'shutdown_with_part' if pb is not None else 'shutdown_idle')
+                elif shut:
+                    f.fail('C13.d', f'{n} did not go down in this step but shutdown callbacks ran: '
+                           f'{[(x[1], x[2]) for x in shut]}', 'spurious_shutdown_cb')
+                if was_down and not is_down:
+                    if [x[1] for x in rest] != [0, 1]:
+                        f.fail('C13.e', f'restore of {n}: restored callbacks ran {[x[1] for x in rest]}',
+                               'restore_callbacks')
+                elif rest:
+                    f.fail('C13.d', f'{n} was not restored in this step but restored callbacks ran', 'spurious_restore_cb')
+            self.df_seen[n] = len(env.simulation_data.get('device_failure', {}).get(n, []))
+            # (d) redundant calls change nothing
+            op = f.cur_op
+            if op is not None and op.get('dev') == n:
+                if op['op'] == 'shutdown' and was_down:
+                    f.bump(f.stats['reach'], 'redundant_shutdown')
+                    if not is_down or o._part is not pb or o._output is not ob or shut or rest:
+                        f.fail('C13.d', f'shutdown() on already shut down {n} changed state', 'redundant_shutdown')
+                if op['op'] == 'restore' and not was_down:
+                    f.bump(f.stats['reach'], 'redundant_restore')
+                    if is_down or o._part is not pb or o._output is not ob or shut or rest:
+                        f.fail('C13.d', f'restore_functionality() on operational {n} changed state', 'redundant_restore')
+            # (f) default work orders keep the target down for exactly their duration
+            if n in self.wo_only and f.maint is not None:
+                sd = env.simulation_data
+                st = sum(1 for r in sd.get('start_work_order', {}).get(f.maint.name, []) if r[1] == n)
+                fi = sum(1 for r in sd.get('finish_work_order', {}).get(f.maint.name, []) if r[1] == n)
+                if (st - fi > 0) != is_down:
+                    f.fail('C13.f', f'{n} has {st - fi} work orders in progress but is_operational() is '
+                           f'{not is_down}', 'wo_down')
+        self.ev(f, 'C13', len(f.procs))
+
+    def after_simulate(self, f):
+        for n in f.procs:
+            o = f.dev[n]
+            if o.uptime != f.up_total[n]:
+                f.fail('C13.a', f'{n}.uptime is {o.uptime} at the end of the run, it has been operational for '
+                       f'{f.up_total[n]}', 'uptime')
+            if o.utilization_time != f.busy_total[n]:
+                f.fail('C13.a', f'{n}.utilization_time is {o.utilization_time} at the end of the run, it has been '
+                       f'processing for {f.busy_total[n]}', 'utilization')
+
+
+# ===========================================================================
+# C11 processors and their resources
+# ===========================================================================
+class C11Monitor(Monitor):
+    def start(self, f):
+        self.declared = {}
+        for n in f.procs:
+            r = f.dspec[n].get('res')
+            if r:
+                self.declared[n] = {k: v for k, v in r.items() if v > 0}
+        self.fail_type = f.lib.EventType.FAIL
+
+    def holdings(self, f, n):
+        rr = f.dev[n]._reserved_resources
+        return {} if rr is None else rr.reserved_resources
+
+    def after_step(self, f, e):
+        tot = {}
+        for n, decl in self.declared.items():
+            o = f.dev[n]
+            h = self.holdings(f, n)
+            if h and h != decl:
+                f.fail('C11.a', f'{n} holds {h}, declared requirement is {decl}', 'wrong_amounts')
+            if o._part is not None and decl and h != decl:
+                f.fail('C11.a', f'{n} has {o._part.name} in process but holds {h} instead of {decl}',
+                       'processing_without_resources')
+            if h and o._part is not None and not o.is_operational():
+                f.bump(f.stats['reach'], 'kept_through_shutdown')
+            for k, v in h.items():
+                tot[k] = tot.get(k, 0) + v
+            if e is not None and e.event_type == self.fail_type and e.asset_id == o.id and not e.cancelled:
+                f.bump(f.stats['reach'], 'failure_while_holding' if self.prev_h.get(n) else 'failure_not_holding')
+                if h:
+                    f.fail('C11.c', f'{n} still holds {h} after its failure', 'held_after_failure')
+        for r in set(tot) | set(f.spec.get('resources', {})):
+            u = f.rm.get_resource_usage(r)
+            if u != tot.get(r, 0):
+                f.fail('C11.b', f'usage of {r} is {u}, processors hold {tot.get(r, 0)} in total', 'usage')
+            if u > f.rm.get_resource_capacity(r):
+                f.bump(f.stats['reach'], 'usage_above_capacity')
+        self.prev_h = {n: self.holdings(f, n) for n in self.declared}
+        self.ev(f, 'C11', len(self.declared))
+
+    prev_h = {}
+
+    def quiescent(self, f):
+        for n, decl in self.declared.items():
+            o = f.dev[n]
+            if o.is_operational() and o._part is None:
+                h = self.holdings(f, n)
+                if h:
+                    f.fail('C11.d', f'idle operational processor {n} holds {h} when time advances from '
+                           f'{f.env.now}', 'idle_holding')
+        self.ev(f, 'C11.d')
+
+
+# ===========================================================================
+# C16 value accounting
+# ===========================================================================
+class C16Monitor(Monitor):
+    def start(self, f):
+        self.hist_seen = {}
+        self.recv_seen = 0
+        self.src_cost = {n: 0 for n in f.sources}
+        self.sink_rev = {n: 0 for n in f.sinks}
+        self.first_recv = set()
+        self.maint_cost = 0
+        self.wo_seen = 0
+        self.initial = {}
+
+    def check_asset(self, f, a, now, label):
+        hist = a.value_history
+        k = id(a)
+        if k not in self.initial:
+            self.initial[k] = a._initial_value if hasattr(a, '_initial_value') else 0
+            self.hist_seen[k] = [0, self.initial[k]]
+        seen, running = self.hist_seen[k]
+        if len(hist) < seen:
+            f.fail('C16.a', f'value history of {label} shrank', 'history_shrank')
+        for ent in hist[seen:]:
+            lab, t, delta, total = ent
+            if delta == 0:
+                f.fail('C16.b', f'{label}: zero change recorded in value history: {ent}', 'zero_delta')
+            if t != now:
+                f.fail('C16.b', f'{label}: value history entry {ent} stamped {t}, now is {now}', 'stamp')
+            running += delta
+            if total != running:
+                f.fail('C16.b', f'{label}: value history entry {ent} has running total {total}, expected {running}',
+                       'running_total')
+        self.hist_seen[k] = [len(hist), running]
+        if not isinstance(a, f.lib.Batch) and a.value != running:
+            f.fail('C16.a', f'{label}: value {a.value} != initial {self.initial[k]} + history deltas = {running}',
+                   'value_sum')
+
+    def after_step(self, f, e):
+        lib, now = f.lib, f.env.now
+        # first receipt of an item = hand-over from its source; receipts by sinks = revenue
+        while self.recv_seen < len(f.recv_log):
+            n, item, t, eff, val = f.recv_log[self.recv_seen][:5]
+            self.recv_seen += 1
+            if id(item) in f.item_src and id(item) not in self.first_recv:
+                self.first_recv.add(id(item))
+                self.src_cost[f.item_src[id(item)]] += val
+            if f.kind[n] == 'sink':
+                self.sink_rev[n] += val
+        for a in f.system._assets:
+            if isinstance(a, lib.Asset):
+                self.check_asset(f, a, now, a.name)
+        for lid in f.where:
+            lf = f.leaf_by_id.get(lid)
+            if lf is not None:
+                self.check_asset(f, lf, now, lf.name)
+        for s, item in f.new_deliveries:
+            for lf in leaves_of(item, lib):
+                self.check_asset(f, lf, now, lf.name)
+        for n in f.sources:
+            o = f.dev[n]
+            if o.cost_of_produced_parts != self.src_cost[n] or o.value != -self.src_cost[n]:
+                f.fail('C16.c', f'source {n}: value {o.value}, cost_of_produced_parts {o.cost_of_produced_parts}, '
+                       f'summed value of supplied parts at hand-over {self.src_cost[n]}', 'source_value')
+        for n in f.sinks:
+            o = f.dev[n]
+            if o.value_of_received_parts != self.sink_rev[n] or o.value != self.sink_rev[n]:
+                f.fail('C16.d', f'sink {n}: value {o.value}, value_of_received_parts {o.value_of_received_parts}, '
+                       f'summed value of parts at receipt {self.sink_rev[n]}', 'sink_value')
+        if f.maint is not None:
+            recs = f.env.simulation_data.get('start_work_order', {}).get(f.maint.name, [])
+            for r in recs[self.wo_seen:]:
+                self.maint_cost += f.dspec[r[1]]['wo'][r[2]][2]
+            self.wo_seen = len(recs)
+            init = f.spec['maintainer'].get('value', 0)
+            if f.maint.value != init - self.maint_cost:
+                f.fail('C16.e', f'maintainer value {f.maint.value} != {init} - cost of started orders '
+                       f'{self.maint_cost}', 'maintainer_value')
+        for n in f.holders:
+            for slot, item in f.slots(n):
+                if isinstance(item, lib.Batch):
+                    sv = sum(p.value for p in item.parts)
+                    if item.value != sv:
+                        f.fail('C16.f', f'batch {item.name} is worth {item.value}, its parts sum to {sv}', 'batch_value')
+        net = f.system.get_net_value_of_assets()
+        tot = sum(a.value for a in f.system._assets)
+        if net != tot:
+            f.fail('C16.g', f'net value {net} != sum over registered assets {tot}', 'net')
+        self.ev(f, 'C16', len(f.system._assets))
+
+
+# ===========================================================================
+# C17 batching
+# ===========================================================================
+class C17Monitor(Monitor):
+    def start(self, f):
+        self.batchers = [n for n in f.holders if f.kind[n] == 'batcher']
+        self.inseq = {n: [] for n in self.batchers}
+        self.outseq = {n: [] for n in self.batchers}
+        self.last_out = {n: None for n in self.batchers}
+        self.recv_seen = 0
+        self.before = {}
+        self.sink_cnt = {n: 0 for n in f.sinks}
+        self.sink_seen = {n: 0 for n in f.sinks}
+
+    def before_step(self, f):
+        self.before = {n: (f.dev[n]._part, f.dev[n]._output) for n in self.batchers}
+
+    def after_step(self, f, e):
+        lib = f.lib
+        step_accepts = {}
+        while self.recv_seen < len(f.recv_log):
+            rec = f.recv_log[self.recv_seen]
+            n, item = rec[0], rec[1]
+            lv = rec[5]
+            self.recv_seen += 1
+            if isinstance(item, lib.Batch):
+                # (e) routing history of every contained part ends with the accepting device
+                for p in lv:
+                    rh = p.routing_history
+                    if not rh or rh[-1] is not f.dev[n]:
+                        f.fail('C17.e', f'{n} accepted batch {item.name} but part {p.name} has history ending '
+                               f'with {rh[-1].name if rh else None}', 'batch_history')
+                f.bump(f.stats['reach'], 'batch_accepted')
+            if n in self.inseq:
+                self.inseq[n].extend(lv)
+                step_accepts[n] = step_accepts.get(n, 0) + 1
+                pb, ob = self.before[n]
+                if pb is not None or ob is not None:
+                    f.fail('C17.c', f'batcher {n} accepted {item.name} while it still had '
+                           f'{"parts to unpack" if pb is not None else "an output waiting"}', 'accept_busy')
+                if isinstance(item, lib.Batch) and not lv:
+                    f.bump(f.stats['reach'], 'empty_batch_at_batcher')
+                if f.dspec[n].get('size') and isinstance(item, lib.Batch) and len(lv) % f.dspec[n]['size']:
+                    f.bump(f.stats['reach'], 'indivisible_batch')
+        for n in self.batchers:
+            o = f.dev[n]
+            size = f.dspec[n].get('size')
+            out = o._output
+            if out is not None and out is not self.last_out[n]:
+                lv = leaves_of(out, lib)
+                self.outseq[n].extend(lv)
+                self.last_out[n] = out
+                if size is None:
+                    if isinstance(out, lib.Batch):
+                        f.fail('C17.b', f'single-part batcher {n} emitted a batch {out.name}', 'batch_from_single')
+                else:
+                    if not isinstance(out, lib.Batch) or len(out.parts) != size:
+                        f.fail('C17.b', f'batcher {n} (size {size}) emitted '
+                               f'{len(lv) if isinstance(out, lib.Batch) else "a single part"}', 'wrong_size')
+                self.ev(f, 'C17.b')
+            elif out is None:
+                self.last_out[n] = None
+            # (a) order
+            ins, outs = self.inseq[n], self.outseq[n]
+            if outs != ins[:len(outs)]:
+                f.fail('C17.a', f'batcher {n}: parts left in order {[p.name for p in outs][-6:]}, arrived in order '
+                       f'{[p.name for p in ins[:len(outs)]][-6:]}', 'order')
+            rest = (leaves_of(o._in_progress_batch, lib) if o._in_progress_batch is not None else []) \
+                + leaves_of(o._part, lib)
+            if ins[len(outs):] != rest:
+                f.fail('C17.a', f'batcher {n}: parts not yet emitted {[p.name for p in ins[len(outs):]]} differ from '
+                       f'its content {[p.name for p in rest]}', 'content')
+            if o._in_progress_batch is not None and size and len(o._in_progress_batch.parts) >= size:
+                f.fail('C17.b', f'batcher {n} keeps {len(o._in_progress_batch.parts)} parts in an open batch of '
+                       f'size {size}', 'overfull')
+        # (d) sinks and buffers count leaves
+        for n in f.sinks:
+            o = f.dev[n]
+            cp = o.collected_parts
+            while self.sink_seen[n] < len(cp):
+                self.sink_cnt[n] += len(leaves_of(cp[self.sink_seen[n]], lib))
+                self.sink_seen[n] += 1
+            if o.received_parts_count != self.sink_cnt[n]:
+                f.fail('C17.d', f'sink {n} counts {o.received_parts_count} parts, received {self.sink_cnt[n]}',
+                       'sink_count')
+        for n in f.buffers:
+            o = f.dev[n]
+            c = sum(len(leaves_of(x, lib)) for x in o.stored_parts)
+            if o.level() != c:
+                f.fail('C17.d', f'buffer {n} level {o.level()} but stores {c} parts', 'buffer_level')
+        self.ev(f, 'C17', len(self.batchers))
+
+
 BY_PROP = {
     'C02': [DownTracker, Census, C02Monitor],
     'C03': [C03Monitor],
     'C05': [C05Monitor],
+    'C06': [DownTracker, Integrator, C06Monitor],
+    'C11': [C11Monitor],
+    'C13': [DownTracker, Integrator, C13Monitor],
+    'C16': [Census, C16Monitor],
+    'C17': [C17Monitor],
 }
